@@ -108,7 +108,7 @@ fn gen_uri(rng: &mut Rng, malformed: bool) -> Gen {
 
 pub fn run(args: &Args) {
     let mut agg = Aggregate::new();
-    for (stream, malformed, n) in [("uris", false, args.n(2_000, 300_000)), ("malformed", true, args.n(1_000, 100_000))] {
+    for (stream, malformed, n) in [("uris", false, args.n(2_000, 100_000)), ("malformed", true, args.n(1_000, 40_000))] {
         run_cases(&mut agg, args, stream, n, |_i, rng, model| {
             let g = gen_uri(rng, malformed);
             let mut o = CaseOutcome::default();
